@@ -10,6 +10,10 @@ from .. import gen, contracts
 from . import c11
 
 PROP = "C12"
+LEVEL_TEXT = 'Histories of count() calls against collections.Counter restricted to the keys, read back after every batch, plus metamorphic twins (read at end, one batch, re-split+permuted, other modulus) on the same sample multiset; hidden scalar/array states, wide / other-signedness / 250001-sample batches. Exploration over histories.'
+LEVEL_NOTE = "trusts numpy 2.x, CPython (copy.copy, slice semantics, big ints) and the reference model in rtmon/props/c12.py; decides the executions it produces, nothing more"
+TECHNIQUE = 'runtime monitoring: history checking against collections.Counter + metamorphic twin runs'
+DESIGN_REF = "DESIGN.md sections 0, 5 (C12), 7"
 RULE = ("case = history: (unique keys, key dtype, modulus, initial value: default | scalar | per-key array, list of sample batches with dtypes, second modulus, "
         "re-split plan); model = collections.Counter restricted to the keys; distinct = hash of the history; non-trivial = >= 2 keys and >= 1 sample that is a key")
 ASSUMPTIONS = ["moduli are representable in the key dtype and small (one bucket per residue is allocated)"]
